@@ -422,7 +422,9 @@ RECURSIVE_XSD = ('<xs:schema xmlns:xs="http://www.w3.org/2001/XMLSchema"><xs:com
                  '<xs:keyref name="R" refer="K"><xs:selector xpath="r"/><xs:field xpath="@n"/></xs:keyref></xs:element>'
                  + ''.join('<xs:element name="%s" minOccurs="0" maxOccurs="unbounded"><xs:complexType><xs:attribute name="n" type="xs:int"/>'
                            '</xs:complexType></xs:element>' % t for t in 'eur') +
-                 '</xs:sequence></xs:complexType><xs:element name="root" type="S"/></xs:schema>')
+                 '</xs:sequence>LANG</xs:complexType><xs:element name="root" type="S"/></xs:schema>')
+# XSD 1.1: the scope element may carry an inheritable attribute (the element is then processed with a copy of the context)
+RECURSIVE_LANG = {'1.0': '<xs:attribute name="lang" type="xs:string"/>', '1.1': '<xs:attribute name="lang" type="xs:string" inheritable="true"/>'}
 RECURSIVE_DOCS = ['<root><s><s><e n="5"/></s><e n="1"/><e n="1"/></s></root>',      # duplicates after a nested scope instance
                   '<root><s><e n="1"/><e n="1"/></s></root>']                          # (no nesting)
 
@@ -431,11 +433,12 @@ def gen_scope(rng, depth):
     """a scope instance <s>: nested instances first (content model (s*, e*, u*, r*)), then its own key / unique / keyref rows"""
     kids = [gen_scope(rng, depth + 1) for _ in range(rng.choice([0, 0, 1, 1, 2]) if depth < 3 else 0)]
     vals = lambda n: [rng.choice([1, 1, 2, 3]) for _ in range(n)]      # noqa: E731
-    return {'kids': kids, 'e': vals(rng.choice([0, 1, 2, 3])), 'u': vals(rng.choice([0, 1, 2])), 'r': vals(rng.choice([0, 1, 2]))}
+    return {'kids': kids, 'e': vals(rng.choice([0, 1, 2, 3])), 'u': vals(rng.choice([0, 1, 2])), 'r': vals(rng.choice([0, 1, 2])),
+            'lang': rng.random() < 0.3}
 
 
 def render_scope(sc):
-    return '<s>%s%s</s>' % (''.join(render_scope(k) for k in sc['kids']),
+    return '<s%s>%s%s</s>' % (' lang="en"' if sc.get('lang') else '', ''.join(render_scope(k) for k in sc['kids']),
                             ''.join('<%s n="%s"/>' % (t, v) for t in 'eur' for v in sc[t]))
 
 
@@ -450,7 +453,8 @@ def subject_recursive(case):
     import xmlschema
     key = 'rec' + case['version']
     if key not in _SCHEMAS:
-        _SCHEMAS[key] = (xmlschema.XMLSchema11 if case['version'] == '1.1' else xmlschema.XMLSchema10)(RECURSIVE_XSD)
+        _SCHEMAS[key] = (xmlschema.XMLSchema11 if case['version'] == '1.1' else xmlschema.XMLSchema10)(
+            RECURSIVE_XSD.replace('LANG', RECURSIVE_LANG[case['version']]))
     s = _SCHEMAS[key]
     try:
         errs = [str(e.reason or '') for e in s.iter_errors(case['xml'])]
